@@ -99,6 +99,9 @@ def _seed_worker(args):
                     bytefam.i3_del_ins(seed, thorough)]
             if thorough:
                 gens.append(bytefam.i4_pairs(seed, True))
+            # accepted by construction more often than not: every other registered name in place of a name (I11),
+            # library-defined constants at every offset (I12)
+            gens += [bytefam.i11_names(seed), bytefam.i12_magic(seed) if len(seed) <= 600 else ()]
             for gen in gens:
                 for tag, data in gen:
                     if check_input(acc, cls, qn, data, tag):
